@@ -1,9 +1,13 @@
 #!/bin/sh
 # Behaviour-preserving variants of the library: every check must stay at exit 0 on each of them.
 # usage: run_guards.sh [guard-name-substring]
+# The simulator sources are snapshotted first (to /tmp/try/vsnap), so edits under /verif/sim during a long
+# run cannot disturb it; PROPS="C05 C13" restricts the checks that are run (rows of other checks are kept).
 export GOFLAGS=-mod=mod GOPROXY=off GOSUMDB=off GOTOOLCHAIN=local
 cd /verif || exit 2
-ALL="C03 C05 C06 C07 C12 C13 C14 C15 C19 C20"
+ALL=${PROPS:-"C03 C05 C06 C07 C12 C13 C14 C15 C19 C20"}
+SNAP=/tmp/try/vsnap.$$
+rm -rf $SNAP; mkdir -p $SNAP; cp -r sim run.sh known_findings.json $SNAP/ || exit 2
 OUT=/verif/guards/RESULTS.tsv
 : > $OUT.tmp
 mkdir -p /tmp/try
@@ -15,19 +19,20 @@ for g in guards/*$1*.diff; do
   if ! git -C $WT apply /verif/$g; then echo "$name: patch does not apply"; git -C /repo worktree remove --force $WT; continue; fi
   export VERIF_OUT=/tmp/try/out.guard_$name; mkdir -p $VERIF_OUT
   for P in $ALL; do
-    VERIF_REPO=$WT ./run.sh check $P --tier quick > /tmp/try/guard_$name.$P.log 2>&1
+    VERIF_REPO=$WT $SNAP/run.sh check $P --tier quick > /tmp/try/guard_$name.$P.log 2>&1
     code=$?
     printf "%s\t%s\t%s\t%s\n" "$name" "$P" "$code" "$(grep -m1 '^violation\|HARNESS\|BUILD' /tmp/try/guard_$name.$P.log | cut -c1-200)" >> $OUT.tmp
   done
-  git -C /repo worktree remove --force $WT; rm -rf $VERIF_OUT; rm -f /verif/.bin/simcheck.$(printf '%s' "$WT" | cksum | cut -d' ' -f1)*
+  git -C /repo worktree remove --force $WT; rm -rf $VERIF_OUT; rm -f $SNAP/.bin/simcheck.$(printf '%s' "$WT" | cksum | cut -d' ' -f1)*
 done
+rm -rf $SNAP
 python3 - "$OUT" <<'PYEOF'
 import sys,os
 out=sys.argv[1]
 new=[l for l in open(out+".tmp")]
-names={l.split("\t")[0] for l in new}
+names={tuple(l.split("\t")[:2]) for l in new}
 old=[l for l in open(out)] if os.path.exists(out) else []
-keep=[l for l in old if l.split("\t")[0] not in names]
+keep=[l for l in old if tuple(l.split("\t")[:2]) not in names]
 rows=sorted(keep+new)
 open(out,"w").writelines(rows)
 os.remove(out+".tmp")
